@@ -79,6 +79,10 @@ class CompletionResult(McpPydanticBase):
         if len(self.values) > 100:
             raise ValueError("Completion values must not exceed 100 items")
 
+    def model_post_init(self, __context):
+        """Run the same validation under Pydantic (which ignores __post_init__)."""
+        self.__post_init__()
+
 
 async def send_completion_complete(
     read_stream: MemoryObjectReceiveStream,
